@@ -10,7 +10,7 @@
  "kind": "proof-const-unwind",
  "timeout": 120,
  "expects": ["assertion_verif"],
- "assumes": ["shape fixed by the harness: (P + C1) op C2, op in {+,-}, P = identifier of an object or &identifier (recursion depth <= 4); harness-enforced, no DFCC frame check: the frame is stated as POST clauses on the nodes",
+ "assumes": ["shape fixed by the harness: (P + C1) op C2, op in {+,-}, P = identifier of an object or &identifier  (real recursion, depth <= 4, --unwind 6 with unwinding assertions); harness-enforced, no DFCC frame check: the frame is stated as POST clauses on the nodes",
              "the pointer operand is the LEFT operand and both offsets are unsigned long constants: expr.c:mkbinaryexpr commutes `C + P` and builds the offset as (unsigned long)idx * sizeof(*P) before eval sees the node",
              "the address-constant value itself (symbol + offset) is emitted by qbe.c from this tree; that P + K denotes the run-time address is the backend's business"]
 }
